@@ -94,29 +94,48 @@ Definition lres_eqb (a b : list form * bool) : bool := forms_eqb (fst a) (fst b)
 (* memory, stash file, stash.tmp, what a fresh Stash loads (forms, loaded without a reader failure) *)
 Definition sobs := (list form * option (list byte) * option (list byte) * (list form * bool))%type.
 Definition scobs := (prim * option (list byte) * option (list byte) * (list form * bool))%type.
-Record scase := { s_d0 : dir; s_ops : list sop; s_obs : list sobs; s_crash : list scobs }.
+(* The reader's verdicts are not modelled: the harness asks the real reader (slip.Read under recover, in the
+   REPL's scope, exactly what fullForm does) about every text LoadExpanded puts to it on the files it observed,
+   and about every line-prefix of every form of the history, and sends the answers along with the case
+   (0 complete, 1 ends inside a list or string, 2 reader error).  A text that is not in the table counts as a
+   reader error; since the model then differs from what was observed, a gap in the table shows as a mismatch,
+   and a gap that would touch the guard is reported by oracle_covers. *)
+Record scase := { s_d0 : dir; s_ops : list sop; s_obs : list sobs; s_crash : list scobs; s_rd : list (list byte * N) }.
+Definition rd_table (tbl : list (list byte * N)) (bs : list byte) : rres :=
+  match find (fun p => bytes_eqb (fst p) bs) tbl with
+  | Some (_, 0) => RFull
+  | Some (_, 1) => RPartial
+  | _ => RErr
+  end.
+Definition in_table (tbl : list (list byte * N)) (bs : list byte) : bool := existsb (fun p => bytes_eqb (fst p) bs) tbl.
+(* every text the guard asks about (the line-prefixes of a form) has an answer from the real reader *)
+Fixpoint prefixes_in (tbl : list (list byte * N)) (pre suf : form) : bool :=
+  match suf with
+  | [] => true
+  | l :: suf' => in_table tbl (expand (pre ++ [l])) && prefixes_in tbl (pre ++ [l]) suf'
+  end.
 
 Definition sobs_eqb (a b : sobs) : bool :=
   let '(m1, h1, t1, l1) := a in let '(m2, h2, t2, l2) := b in
   forms_eqb m1 m2 && obytes_eqb h1 h2 && obytes_eqb t1 t2 && lres_eqb l1 l2.
 
 (* the harness begins with a fresh Stash and LoadExpanded on the directory as it is *)
-Definition sstart (c : scase) : list form * dir := (fst (sload rd_paren (s_d0 c)), s_d0 c).
+Definition sstart (c : scase) : list form * dir := (fst (sload (rd_table (s_rd c)) (s_d0 c)), s_d0 c).
 
-Fixpoint run_sobs (sd : list form * dir) (ops : list sop) : list sobs :=
+Fixpoint run_sobs (rd : list byte -> rres) (sd : list form * dir) (ops : list sop) : list sobs :=
   match ops with
   | [] => []
-  | o :: ops' => let '(sd1, _) := sstep rd_paren sd o in
-                 (fst sd1, d_hist (snd sd1), d_tmp (snd sd1), sload rd_paren (snd sd1)) :: run_sobs sd1 ops'
+  | o :: ops' => let '(sd1, _) := sstep rd sd o in
+                 (fst sd1, d_hist (snd sd1), d_tmp (snd sd1), sload rd (snd sd1)) :: run_sobs rd sd1 ops'
   end.
 
-Fixpoint scrash_ok (d0 : dir) (xs : list prim) (k : nat) (co : list scobs) : bool :=
+Fixpoint scrash_ok (rd : list byte -> rres) (d0 : dir) (xs : list prim) (k : nat) (co : list scobs) : bool :=
   match co with
   | [] => Nat.eqb k (List.length xs)
   | (x, h, t, l) :: co' =>
       let d := crash_dir d0 xs k in
       (match nth_error xs k with Some m => prim_shape_eqb m x | None => false end) &&
-      obytes_eqb (d_hist d) h && obytes_eqb (d_tmp d) t && lres_eqb (sload rd_paren d) l && scrash_ok d0 xs (S k) co'
+      obytes_eqb (d_hist d) h && obytes_eqb (d_tmp d) t && lres_eqb (sload rd d) l && scrash_ok rd d0 xs (S k) co'
   end.
 
 Fixpoint sspec_ok (fs : list form) (ops : list sop) (os : list sobs) : bool :=
@@ -131,23 +150,29 @@ Definition scrash_spec_ok (fs : list form) (ops : list sop) (co : list scobs) : 
 
 (* the initial stash file is missing, or is what Clear writes or what Add writes for the forms it loads as *)
 Definition s_in_domain (c : scase) : bool :=
-  forallb (sop_encodable rd_paren) (s_ops c) &&
+  let rd := rd_table (s_rd c) in
+  forallb (sop_encodable rd) (s_ops c) &&
   match d_hist (s_d0 c) with
-  | Some bs => let l := sload rd_paren (s_d0 c) in
-               snd l && forallb (sencodable rd_paren) (fst l) &&
+  | Some bs => let l := sload rd (s_d0 c) in
+               snd l && forallb (sencodable rd) (fst l) &&
                (bytes_eqb bs (encode (fst l)) || bytes_eqb bs (enc_mixed (map (fun f => (true, f)) (fst l))))
   | None => true
   end.
+Definition oracle_covers (c : scase) : bool :=
+  forallb (fun o => match o with SAdd f => prefixes_in (s_rd c) [] f | _ => true end) (s_ops c) &&
+  forallb (prefixes_in (s_rd c) []) (fst (sload (rd_table (s_rd c)) (s_d0 c))).
 
 Definition check_scase (c : scase) : N :=
+  let rd := rd_table (s_rd c) in
   let sd := sstart c in
-  let m := run_sobs sd (s_ops c) in
-  let xs := snd (srun rd_paren sd (s_ops c)) in
+  let m := run_sobs rd sd (s_ops c) in
+  let xs := snd (srun rd sd (s_ops c)) in
   let fs0 := fst sd in
   let agree := list_eqb sobs_eqb m (s_obs c) &&
-               (match s_crash c with [] => true | co => scrash_ok (s_d0 c) xs 0 co end) in
+               (match s_crash c with [] => true | co => scrash_ok rd (s_d0 c) xs 0 co end) in
   let sok := sspec_ok fs0 (s_ops c) (s_obs c) && scrash_spec_ok fs0 (s_ops c) (s_crash c) in
-  if agree then (if s_in_domain c && negb sok then 3 else 0)
+  if negb (oracle_covers c) then 1     (* the harness did not ask the reader about a text the guard needs *)
+  else if agree then (if s_in_domain c && negb sok then 3 else 0)
   else if s_in_domain c && negb sok then 2 else 1.
 
 Fixpoint check_sall_from (i : N) (cs : list scase) : list (N * N) :=
